@@ -152,8 +152,18 @@ def generate(R: Draw, tier: str) -> dict:
         return {"kind": kind, "schema": name, "doc": doc}
     doc = gh.add_code_whitespace(R, rs, doc)
     doc = gh.sprinkle_specials(R, rs, doc)
+    doc = gh.lead_spaces(R, rs, doc)
     doc = gh.ws_normalize(rs, doc)
     return {"kind": kind, "schema": name, "doc": doc}
+
+
+def _textblocks(p: dict, rs) -> list:  # noqa: ANN001
+    out = []
+    if rs.textblock.get(p["t"]) and not rs.nodes[p["t"]].get("code"):
+        out.append(p["c"])
+    for c in p["c"]:
+        out.extend(_textblocks(c, rs))
+    return out
 
 
 def _naive(html: str) -> bool:
@@ -233,6 +243,14 @@ def check(case: dict, ctx: Ctx) -> None:
             ctx.label("roundtrip:mark-boundary")
             nt = True
             break
+    runs = [c for c in _textblocks(doc_p, rs)]
+    if any(
+        a["t"] == "text" and b["t"] == "text" and c_["t"] == "text" and b["x"].startswith(" ") and c_["x"].startswith(" ")
+        for kids in runs
+        for a, b, c_ in zip(kids, kids[1:], kids[2:])
+    ):
+        ctx.label("roundtrip:consecutive-leading-spaces")
+        nt = True
     if any(ch in html for ch in ("&lt;", "&amp;", "&quot;", "&#x27;", "&gt;")):
         ctx.label("roundtrip:escaped")
         nt = True
